@@ -211,7 +211,10 @@ Record proof_outline := mkoutline {
 Definition empty_outline := mkoutline [] [] [] [].
 
 (* ProofOutline::from_specification: one loop over the entries; [taken] grows by each accepted
-   definition's predicate only (NOT by the predicates of lemmas: observation F12) *)
+   definition's predicate and by the predicates of each accepted lemma / inductive lemma
+   (`taken_predicates.extend(anf.formula.predicates())`, the repair of finding F12), so a later
+   definition can neither define a predicate that an earlier entry mentions nor be refused for a body
+   over a predicate that an earlier lemma introduced *)
 Fixpoint from_specification_loop (l : specification) (taken : list pred) (m : placeholders)
          (o : proof_outline) (ws : list po_warning) : result (proof_outline * list po_warning) po_error :=
   match l with
@@ -234,7 +237,7 @@ Fixpoint from_specification_loop (l : specification) (taken : list pred) (m : pl
                         | DBackward => mkoutline (forward_lemmas o) (backward_lemmas o ++ [g])
                                                  (forward_definitions o) (backward_definitions o)
                         end in
-              from_specification_loop l' taken m o' ws
+              from_specification_loop l' (iset_extend pred_dec taken (predicates (an_formula anf))) m o' ws
           end
       | RDefinition =>
           match definition (an_formula anf) taken with
